@@ -25,6 +25,8 @@ def demo_file():
     c = glob.glob(f"{demo_dir}/change{k}_demo.*")
     return c[0] if c else None
 
+rel = "--release" if os.environ.get("CONFIRM_RELEASE") else ""  # a demonstration that needs the release profile
+
 def run_demo():
     d = demo_file()
     if d is None:
@@ -33,7 +35,8 @@ def run_demo():
         name = f"seeded_demo_{k}"
         # fst-bin demos may need the binary; integration tests of the root crate otherwise
         shutil.copy(d, f"{wt}/tests/{name}.rs")
-        rc, out = sh(f"cargo test --test {name} --offline -- --test-threads=1 2>&1 | tail -40")
+        # (a demonstration may drive the built `fst` binary: bring it up to date first)
+        rc, out = sh(f"cargo build --workspace --offline >/dev/null 2>&1; cargo test {rel} --test {name} --offline -- --test-threads=1 2>&1 | tail -40")
         # cargo test exit code is lost by the pipe: look at the summary
         ok = ("test result: ok" in out) and ("FAILED" not in out) and ("could not compile" not in out)
         os.remove(f"{wt}/tests/{name}.rs")
